@@ -86,6 +86,26 @@ func init() {
 		fr.m.covers[fr.m.str(args[0])] = true
 		return nil
 	})
+	// CoverIf(cond, label): the label is covered when cond is satisfiable on
+	// this path; one query, no fork, the path is not constrained
+	reg(nd+"CoverIf", func(fr *frame, args []value) value {
+		m := fr.m
+		label := m.str(args[1])
+		if m.covers[label] {
+			return nil
+		}
+		c := args[0].(*Term)
+		if c.IsConst() {
+			if c.IsTrue() {
+				m.covers[label] = true
+			}
+			return nil
+		}
+		if m.checkSat(c) == Sat {
+			m.covers[label] = true
+		}
+		return nil
+	})
 	reg(nd+"Known", func(fr *frame, args []value) value {
 		m := fr.m
 		id := m.str(args[0])
